@@ -32,11 +32,11 @@ RULE = (
     "excluded directory) and (>= 2 generations or a nested history); distinct by canonical scenario hash."
 )
 ASSUMPTIONS = [
-    "patterns are base names, simple globs or 'name/' directory patterns; negation, anchoring, '**', comments and trailing blanks are not generated (their meaning is not stated)",
+    "patterns are base names, simple globs, 'name/' directory patterns or root-relative paths 'a/b'; negation, leading '/', '**', comments and trailing blanks are not generated (their meaning is not stated)",
     "path components are matched case-sensitively",
 ]
 BUDGET = {"quick": (200, 4), "thorough": (8000, 16)}
-REQUIRED = ["glob", "dir_pattern", "basename", "ii_file", "nested", "x_file_and_dir", "multi_generation", "duplicate_pattern", "verify_dh"]
+REQUIRED = ["glob", "dir_pattern", "basename", "relpath_pattern", "ii_file", "nested", "child_after_parent", "x_file_and_dir", "multi_generation", "duplicate_pattern", "verify_dh"]
 
 DEFAULTS = [".DS_Store", "ascmhl", "ascmhl/"]
 _first = "abcdefghijklmnopqrstuvwxyzABCDEXYZ0123456789_."
@@ -51,11 +51,14 @@ def _walk(tree, prefix=""):
 
 
 @st.composite
-def _patterns(draw, names_files, names_dirs, k):
+def _patterns(draw, names_files, names_dirs, k, relpaths=()):
     out = []
     for _ in range(k):
-        kind = draw(st.sampled_from(["base", "base_dir", "base_dir", "glob", "glob", "dir", "dir", "absent"]))
+        kind = draw(st.sampled_from(["base", "base_dir", "base_dir", "glob", "glob", "dir", "dir", "absent"] + (["relpath"] * 3 if relpaths else [])))
         pool = names_files + names_dirs
+        if kind == "relpath":
+            out.append(draw(st.sampled_from(list(relpaths))))
+            continue
         if kind == "base" and pool:
             out.append(draw(st.sampled_from(pool)))
         elif kind == "base_dir" and names_dirs:
@@ -81,22 +84,30 @@ def _patterns(draw, names_files, names_dirs, k):
 @st.composite
 def _scn(draw):
     tree = draw(gen.trees("plain", max_leaves=14, min_top=2))
+    if not any(isinstance(v, dict) for v in tree.values()):
+        tree["d" + draw(gen.plain_names())] = draw(gen.trees("plain", max_leaves=5, min_top=1))
     entries = list(_walk(tree))
     nf = sorted({p.split("/")[-1] for p, d in entries if not d})
     nd = sorted({p.split("/")[-1] for p, d in entries if d})
     dirs = [p for p, d in entries if d]
-    child = draw(st.one_of(st.none(), st.sampled_from(dirs))) if dirs else None
+    child = draw(st.one_of(st.none(), st.sampled_from(dirs), st.sampled_from(dirs))) if dirs else None
+    deep = [p for p, d in entries if p.count("/") >= 1]  # root-relative path patterns (a/b, a/b/c.txt)
     gens = []
     for i in range(draw(st.integers(1, 4))):
-        gens.append({"i": draw(_patterns(nf, nd, draw(st.integers(1, 3)) if i == 0 else draw(st.integers(0, 2)))), "ii": draw(_patterns(nf, nd, draw(st.sampled_from([0, 0, 1, 2])))), "formats": draw(gen.formats(2)),
+        gens.append({"i": draw(_patterns(nf, nd, draw(st.integers(1, 3)) if i == 0 else draw(st.integers(0, 2)), deep)), "ii": draw(_patterns(nf, nd, draw(st.sampled_from([0, 0, 1, 2])), deep)), "formats": draw(gen.formats(2)),
                      "ii_newline": draw(st.booleans())})
+    if draw(st.booleans()) and gens[0]["ii"] + gens[0]["i"] and len(gens) > 1:
+        allp = gens[0]["i"] + gens[0]["ii"]
+        gens[-1]["ii"] = gens[-1]["ii"] + [allp[-1]]  # a pattern file repeating an earlier pattern
     if draw(st.booleans()) and gens[0]["i"] and len(gens) > 1:
         gens[-1]["i"] = gens[-1]["i"] + [gens[0]["i"][0]]  # a duplicate of an earlier pattern
     constant = draw(st.booleans())
     if constant:
         for g in gens[1:]:
             g["i"], g["ii"] = [], []
-    return {"tree": tree, "child": child, "child_patterns": draw(_patterns(nf, nd, draw(st.integers(0, 2)))) if child else [], "gens": gens, "edits": draw(st.integers(0, 2**16))}
+    return {"tree": tree, "child": child, "child_patterns": draw(_patterns(nf, nd, draw(st.integers(0, 2)))) if child else [], "gens": gens, "edits": draw(st.integers(0, 2**16)),
+            # the nested history is started before generation child_at of the parent (0 = before the parent exists)
+            "child_at": draw(st.integers(0, len(gens) - 1)) if child else 0}
 
 
 def strategy(tier):
@@ -110,6 +121,10 @@ def matches(relpath, patterns):
         if p.endswith("/"):
             g = p[:-1]
             if any(fnmatch.fnmatchcase(c, g) for c in parts[:-1]):
+                return True
+        elif "/" in p:
+            # a pattern with a directory part is relative to the root the command was started at
+            if relpath == p or relpath.startswith(p + "/"):
                 return True
         else:
             if any(fnmatch.fnmatchcase(c, p) for c in parts):
@@ -168,16 +183,23 @@ def run_world(w, scn, remove_x_first, ctx, feats, check):
                 else:
                     w.rm("R/" + p)
     prev_child = None
-    if child and "R/" + child in w.dirs:
+
+    def start_child():
         res = seal(w, "R/" + child, {"i": scn["child_patterns"], "ii": [], "formats": ["md5"], "ii_newline": True}, "child")
         require(res.exc is None and res.exit_code == 0, "setup", res.brief(), res)
-        prev_child = w.read_history("R/" + child)[-1][2]["patterns"]
+        pc = w.read_history("R/" + child)[-1][2]["patterns"]
         if check:
             want = expected_list(None, scn["child_patterns"])
-            require(prev_child == want, "pattern-list", "child first generation patterns %r, expected %r" % (prev_child, want), res)
+            require(pc == want, "pattern-list", "child first generation patterns %r, expected %r" % (pc, want), res)
+        return pc
+
     prev = None
     last = None
     for gi, g in enumerate(scn["gens"]):
+        if child and "R/" + child in w.dirs and gi == scn.get("child_at", 0):
+            prev_child = start_child()
+            if gi > 0:
+                feats.add("child_after_parent")
         nchild = len(w.manifests("R/" + child)) if child else 0
         res = seal(w, "R", g, "g%d" % gi)
         require(res.exc is None and res.exit_code == 0, "create-exit", "generation %d: %s\n%s" % (gi + 1, res.brief(), res.output[-300:]), res)
@@ -189,7 +211,7 @@ def run_world(w, scn, remove_x_first, ctx, feats, check):
             require(len(set(doc["patterns"])) == len(doc["patterns"]), "pattern-duplicates", "duplicates in %r" % doc["patterns"], res)
         prev = doc["patterns"]
         cdoc = None
-        if child and "R/" + child in w.dirs and len(w.manifests("R/" + child)) > nchild:
+        if child and prev_child is not None and "R/" + child in w.dirs and len(w.manifests("R/" + child)) > nchild:
             # (a child whose root the parent's patterns exclude gets no generation from the parent run)
             cdoc = w.read_history("R/" + child)[-1][2]
             if check:
@@ -254,14 +276,17 @@ def run_case(scn, ctx):
             if "R/" + d in w.dirs:
                 w.put("R/" + d + "/added_inside_ignored.bin", "new")
         for p in eff:
-            if not p.endswith("/") and "*" not in p and "?" not in p and p not in DEFAULTS and "R/" + p not in w.files and "R/" + p not in w.dirs:
+            if not p.endswith("/") and "/" not in p and "*" not in p and "?" not in p and p not in DEFAULTS and "R/" + p not in w.files and "R/" + p not in w.dirs:
                 w.put("R/" + p, "new file with an ignored name")
                 break
         w.put("R/.DS_Store", "finder")
         constant = all(not (g["i"] or g["ii"]) for g in scn["gens"][1:])
         for cmd in ("verify", "diff", "verify_dh"):
             if cmd == "verify_dh":
-                if not constant or scn["child_patterns"]:
+                if not constant or scn["child"]:
+                    # verify -dh compares against every generation: only when the effective patterns never changed,
+                    # in the top history and (hence no nested history sealed earlier with fewer patterns) can the
+                    # unchanged-tree clause be asserted
                     continue
                 res = w.verify("R", flags=["-dh"])
                 feats.add("verify_dh")
@@ -273,8 +298,10 @@ def run_case(scn, ctx):
             feats.add("glob")
         if any(p.endswith("/") for p in allp):
             feats.add("dir_pattern")
-        if any(not p.endswith("/") and "*" not in p and "?" not in p for p in allp):
+        if any(not p.endswith("/") and "/" not in p and "*" not in p and "?" not in p for p in allp):
             feats.add("basename")
+        if any("/" in p[:-1] for p in allp):
+            feats.add("relpath_pattern")
         if any(g["ii"] for g in scn["gens"]):
             feats.add("ii_file")
         if len(allp) != len(set(allp)):
